@@ -125,7 +125,8 @@ KF_nested_review_dup(pid, t) ==
 V_C01_QuiescentOK ==
   IF ~Quiescent THEN {}
   ELSE { V("C01_QuiescentOK", pid, NoKey,
-             {k \in {"KF_step_timeout_review"} : KF_step_timeout_review_p(pid)}) :
+             {k \in {"KF_step_timeout_review"} : KF_step_timeout_review_p(pid)}
+             \cup {k \in {"KF_back_enclosing"} : KF_back_enclosing_p(pid)}) :
            pid \in { q \in LivePids : ~Terminated(q) /\ ~OpenIrq(q) } }
 
 (* C02 — only legal transitions; every write is judged where it happens      *)
